@@ -1335,7 +1335,12 @@ class Interp:
         if isinstance(op, (ast.In, ast.NotIn)):
             if isinstance(b, KwDict):
                 b = b.d
-            r = V.v_contains(cx, b, a)
+            if isinstance(b, (SObj, SRef)) and not hasattr(b, "py_contains"):
+                mb = self.registry.method_binding(b.cls, "__contains__")
+                r = mb(cx, b, a) if mb is not None else self.call_value(cx, None, self.lookup_attr(cx, b, "__contains__"), [a], {})
+                r = truth(cx, r)
+            else:
+                r = V.v_contains(cx, b, a)
             if isinstance(op, ast.NotIn):
                 r = (not r) if isinstance(r, bool) else z3.Not(as_bool(cx, r))
             return r
